@@ -12,3 +12,5 @@ import RaftWal.Props.C10
 #print axioms RaftWal.C10.failed_append_stale_bytes_fabricate_an_entry
 #print axioms RaftWal.C10.chain_atomic_with_faults_refuted
 #print axioms RaftWal.C10.chain_atomic_faults_partial
+#print axioms RaftWal.C10.repaired_witnesses
+#print axioms RaftWal.C10.chain_atomic_repaired_sync
